@@ -54,7 +54,7 @@ def _whole_object_copy(call):
 
 
 # ------------------------------------------------------------------------------------------ G1
-@rule("G1", ["C09", "C10", "C03"], "a whole-object byte copy is reachable only for reference-free types; _has_refs propagates through containers")
+@rule("G1", ["C09", "C10", "C03", "C08"], "a whole-object byte copy is reachable only for reference-free types; _has_refs propagates through containers")
 def g1(cx):
     m = cx.m
     n_guarded = 0
@@ -525,8 +525,10 @@ def m1(cx):
     # ---- Struct
     fb = m.func("struct::Struct._from_buffer")
     ref = _must_assigned(fb, "self")
-    cx.need({"_buffer", "_offset", "_offsets", "_size"} <= ref, f"Struct._from_buffer no longer establishes _buffer/_offset/_offsets/_size (has {sorted(ref)})")
-    cx.ok(fb, construct=f"Struct._from_buffer establishes {sorted(ref)}", detail="reference set of caches", sub="struct")
+    required = {"_buffer", "_offset", "_offsets", "_size"}
+    cx.check(required <= ref, fb, construct=f"Struct._from_buffer establishes {sorted(ref)}", detail="the view has every cache the accessors read",
+             bad_detail=f"the view materialiser does not establish {sorted(required - ref)}: accessors of nested views raise AttributeError / read stale values", sub="struct")
+    ref = ref | required
     ss = m.func("struct::Struct.__setstate__")
     got = _must_assigned(ss, "self")
     miss = sorted(ref - got)
@@ -641,6 +643,8 @@ def _rank(e, d, depth=0):
             return 1
     if isinstance(e, ast.Attribute) and e.attr == "_offsets":
         return "same-as-view"
+    if isinstance(e, ast.Attribute) and e.attr == "offsets" and norm(e.value) == "info":
+        return "same-as-plan"
     return None
 
 
@@ -667,7 +671,7 @@ def m2(cx):
     for kind, st, r in prods:
         if r is None:
             raise AnalysisError(f"[M2] rank of `{short(st)}` cannot be determined")
-        cx.check(r in ("nd", "same-as-view"), st, construct=f"{kind}: {short(st, 140)}", nf=f"rank = {r}",
+        cx.check(r in ("nd", "same-as-view", "same-as-plan"), st, construct=f"{kind}: {short(st, 140)}", nf=f"rank = {r}",
                  detail="cache has one axis per array dimension",
                  bad_detail=f"cache has rank {r}, but accessors index it with the full nd-tuple: views of arrays with 2+ dimensions raise IndexError")
 
@@ -684,9 +688,12 @@ def l3(cx):
     n = 0
     for label, fn in planners:
         for st in own_nodes(fn):
-            if not (isinstance(st, ast.AugAssign) and isinstance(st.op, ast.Add) and norm(st.target) == "offset"):
+            if isinstance(st, ast.AugAssign) and isinstance(st.op, ast.Add) and norm(st.target) == "offset":
+                v = st.value
+            elif isinstance(st, ast.Assign) and norm(st.targets[0]) == "offset" and isinstance(st.value, ast.BinOp) and isinstance(st.value.op, ast.Add) and "offset" in (norm(st.value.left), norm(st.value.right)):
+                v = st.value.right if norm(st.value.left) == "offset" else st.value.left
+            else:
                 continue
-            v = st.value
             txt = norm(v)
             inner = v.args[0] if isinstance(v, ast.Call) and call_name(v) == "_to_slot_size" and v.args else None
             part_size = any(isinstance(x, ast.Attribute) and x.attr in ("size", "_size") for x in ast.walk(v))
